@@ -9,9 +9,9 @@ git checkout -- . ; rm -f "$D/seed_demo_test.go"
 git apply --check seed_out/patch.diff || { echo "CONFIRM: patch does not apply"; exit 2; }
 mv seed_out /tmp/seed_out.$$   # keep it out of ./... while the suite runs
 cp /tmp/seed_out.$$/seed_demo_test.go "$D/"
-if (cd "$D" && go test -mod=mod -vet=off -count=1 -run "$R" . >/tmp/seedc.$$ 2>&1); then echo "CONFIRM: demo passes without the change: yes"; else echo "CONFIRM: demo passes without the change: NO"; tail -5 /tmp/seedc.$$; fi
+if (cd "$D" && go test -mod=mod -vet=off -count=1 $SEED_TAGS -run "$R" . >/tmp/seedc.$$ 2>&1); then echo "CONFIRM: demo passes without the change: yes"; else echo "CONFIRM: demo passes without the change: NO"; tail -5 /tmp/seedc.$$; fi
 git apply /tmp/seed_out.$$/patch.diff
-if (cd "$D" && go test -mod=mod -vet=off -count=1 -run "$R" . >/tmp/seedc.$$ 2>&1); then echo "CONFIRM: demo fails with the change: NO (passes)"; else echo "CONFIRM: demo fails with the change: yes"; grep -m3 -E "^\s+.*(Error|error|mismatch|FAIL|got|want)" /tmp/seedc.$$ | cut -c1-200; fi
+if (cd "$D" && go test -mod=mod -vet=off -count=1 $SEED_TAGS -run "$R" . >/tmp/seedc.$$ 2>&1); then echo "CONFIRM: demo fails with the change: NO (passes)"; else echo "CONFIRM: demo fails with the change: yes"; grep -m3 -E "^\s+.*(Error|error|mismatch|FAIL|got|want)" /tmp/seedc.$$ | cut -c1-200; fi
 rm -f "$D/seed_demo_test.go"
 echo "CONFIRM: suite with the change: $(/verif/tools/baseline.sh "$W")"
 git checkout -- . ; mv /tmp/seed_out.$$ seed_out; rm -f /tmp/seedc.$$
